@@ -114,6 +114,11 @@ func (t *openTelemetryTransport) Submit(op *runtime.ClientOperation) (interface{
 		return t.transport.Submit(op)
 	}
 
+	// wrap Params and Reader on a copy: the caller's operation value is left as it is (it may be submitted again, or be
+	// shared by several goroutines, as it may with Runtime.Submit)
+	opCopy := *op
+	op = &opCopy
+
 	params := op.Params
 	reader := op.Reader
 
